@@ -253,16 +253,12 @@ def check_src(st, src, nbits, nmarks, flavour, ret):
     except rtypes.Unspecified as e:
         st.add('unspecified')
         return
-    try:
-        hid.typecheck(src)
-        iv, imsg = 'accept', None
-    except hid.TypeCheckError as e:
-        iv, imsg = 'reject', str(e)
-    except hid.CompilerError as e:
-        iv, imsg = type(e).__name__, str(e)
-    except Exception as e:
-        st.viol(f'{flavour}/{ret} body crashed the typechecker: {type(e).__name__}: {e}', case)
+    # acceptance is judged on the whole compiler (whichever phase reports a missing return)
+    lines, err = compile_case(src, 2)
+    if err and err[0] != 'reject':
+        st.viol(f'{flavour}/{ret} body crashed the compiler: {err[1]}', case)
         return
+    iv, imsg = ('reject', err[1]) if err else ('accept', None)
     if rv != iv:
         if rv == 'accept':
             st.viol(f'{flavour}/{ret}: body always returns (or never completes) by the documented rules but is rejected: {iv}: {imsg}', case)
@@ -274,10 +270,6 @@ def check_src(st, src, nbits, nmarks, flavour, ret):
         return
     st.add('accepted')
     # ---- execution on every condition assignment
-    lines, err = compile_case(src, 2)
-    if err:
-        st.viol(f'{flavour}/{ret}: accepted body not compiled: {err}', case)
-        return
     seen = set()
     for x in range(1 << nbits):
         collected = []
@@ -300,7 +292,7 @@ def check_src(st, src, nbits, nmarks, flavour, ret):
     marks = set(ord(c) for c in 'abcdefghijklmnopqrstuvwxyzABCDEFGHIJKLMNOPQRSTUVWXYZ0123456789'[:nmarks])
     never = marks - seen
     if lerr:
-        if lerr[0] != 'reject' or 'Unreachable' not in lerr[1]:
+        if lerr[0] != 'reject':
             st.viol(f'{flavour}/{ret}: --lint failed with {lerr}', case)
         elif not never:
             st.viol(f'{flavour}/{ret}: --lint rejects ({lerr[1]}) although the reference reaches every statement on some input', case)
